@@ -164,7 +164,7 @@ func c17R7(p *core.Program, r *core.Report) {
 	g := graph(f)
 	n := 0
 	for _, s := range templateSites(p) {
-		if s.F != f || !s.IsConst {
+		if !sameFunc(s.F, f) || !s.IsConst {
 			continue
 		}
 		flat := strings.ReplaceAll(strings.ReplaceAll(s.Format, " ", ""), "\n", "")
@@ -302,7 +302,7 @@ func c17R2(p *core.Program, r *core.Report) {
 		good := false
 		why := "no template in this arm"
 		for _, s := range sites {
-			if s.F != f || !(cc.Pos() <= s.Call.Pos() && s.Call.End() <= cc.End()) || !s.IsConst {
+			if !sameFunc(s.F, f) || !(cc.Pos() <= s.Call.Pos() && s.Call.End() <= cc.End()) || !s.IsConst {
 				continue
 			}
 			// make(@X of the field's own type
